@@ -480,7 +480,7 @@ func (e *kvElection) becomeLeader(token string, rev uint64) {
 		e.validationLoop(termCtx)
 	}()
 
-	if e.onPromote != nil {
+	if onPromote := e.onPromote; onPromote != nil {
 		log.Info("leader_promoted",
 			append(e.logWithContext(e.ctx),
 				zap.String("token", token),
@@ -501,7 +501,7 @@ func (e *kvElection) becomeLeader(token string, rev uint64) {
 			}()
 			promoteCtx, cancel := context.WithCancel(termCtx)
 			defer cancel()
-			e.onPromote(promoteCtx, token)
+			onPromote(promoteCtx, token)
 		}()
 	}
 }
@@ -734,13 +734,8 @@ func (e *kvElection) Stop() error {
 	case <-time.After(5 * time.Second):
 	}
 
-	if wasLeader && e.onDemote != nil {
-		log.Info("leader_demoted",
-			append(e.logWithContext(e.ctx),
-				zap.String("reason", "stop"),
-			)...,
-		)
-		e.onDemote()
+	if wasLeader {
+		e.runOnDemote("stop")
 	}
 
 	return nil
@@ -879,7 +874,7 @@ func (e *kvElection) StopWithContext(ctx context.Context, opts StopOptions) erro
 		}
 	}
 
-	if wasLeader && e.onDemote != nil {
+	if wasLeader {
 		log := e.getLogger()
 		log.Info("leader_demoted",
 			append(e.logWithContext(ctx),
